@@ -298,8 +298,8 @@ def judge(ctx, binary, traces, tag, seen, scripts):
         if len(flat) == 1:
             return 0, [], 0
         return validate_history_trace(ctx, SPEC, "PinITrace", flat, tag="%si%d" % (tag, i), max_rounds=3)
-    res = parallel(one, list(enumerate(traces)), n=6)
-    res_i = parallel(one_i, list(enumerate(traces)), n=6)
+    res = parallel(one, list(enumerate(traces)), n=4)
+    res_i = parallel(one_i, list(enumerate(traces)), n=4)
     for ti, ((acc, rejected, _), (acc_i, rej_i, _), ev) in enumerate(zip(res, res_i, traces)):
         _, hs = split_histories(ev)
         ctx.cov["traces_validated_against_impl"] += acc
@@ -351,7 +351,7 @@ def run(ctx):
     jobs = [("MC_bug_%s.cfg" % b, b) for b in BUGS] + [("MC_wit_fallback.cfg", "wit-fallback"), ("MC_wit_repin.cfg", "wit-repin")]
     def mc(job):
         return ctx.tlc(sd, "MC_C11", job[0], workers=2, timeout=900, label="expected violated: %s" % job[1])
-    for job, r in zip(jobs, parallel(mc, jobs, n=6)):
+    for job, r in zip(jobs, parallel(mc, jobs, n=4)):
         if r.violated is None:
             raise Broken("%s is not refuted / not reachable (vacuous check): %r" % (job[1], r))
 
